@@ -5,6 +5,7 @@ mod heap;
 mod json;
 mod modl;
 mod num;
+mod orders;
 mod path;
 mod pos;
 mod prog;
@@ -19,6 +20,7 @@ fn main() {
     let f: fn(&str) -> String = match model {
         "path" => path::line,
         "heap" => heap::line,
+        "orders" => orders::line,
         "mod" => modl::line,
         "pos" => pos::line,
         "prog" => prog::line,
